@@ -970,6 +970,31 @@ def gen_fcase(rng):
             'fseed': int(rng.integers(0, 2 ** 31))}
 
 
+PAXES = [(1, 1.0), (1, 3.0), (2, 1.0), (2, 1.5), (2, 2.5), (3, 1.0), (3, 5 / 3), (3, 2.0), (3, 7 / 3), (4, 1.0), (4, 1.25), (4, 1.5), (4, 2.0),
+         (5, 1.0), (5, 1.2), (5, 1.4), (6, 1.0), (6, 7 / 6), (7, 1.0), (2, 3.5), (3, 3.0), (1, 5.0), (8, 1.0), (9, 1.0)]
+
+
+def gen_pcase(rng):
+    """A FourierFilter of any small internal size (odd sizes, where fftshift != ifftshift, included) for the driver op `filtp`."""
+    while True:
+        (nx, qx), (ny, qy) = PAXES[int(rng.integers(0, len(PAXES)))], PAXES[int(rng.integers(0, len(PAXES)))]
+        mxx, myy = int(np.round(qx * nx)), int(np.round(qy * ny))
+        if mxx * myy <= 64 and nx * ny * (mxx * myy) ** 2 <= 12000:
+            break
+    fc = gen_fcase(rng)
+    fc.update({'dims': [nx, ny], 'q': qx if (qx == qy and rng.random() < 0.7) else [qx, qy], 'op': 'filtp'})
+    return fc
+
+
+def directed_pcases():
+    out = []
+    for (nx, qx), (ny, qy) in (((3, 1.0), (3, 1.0)), ((3, 5 / 3), (2, 2.5)), ((5, 1.0), (3, 1.0)), ((2, 1.5), (3, 7 / 3)), ((3, 1.0), (5, 1.4)),
+                               ((6, 1.0), (1, 3.0)), ((1, 5.0), (5, 1.0)), ((3, 2.0), (3, 2.0))):
+        for t in ('generator', 'field'):
+            out.append({'dims': [nx, ny], 'delta': [0.25, 0.25], 'q': qx if qx == qy else [qx, qy], 'field': 'scalar', 'tfkind': t, 'fseed': 6, 'op': 'filtp'})
+    return out
+
+
 def directed_fcases():
     out = []
     for (nx, qx), (ny, qy) in (((2, 2.0), (3, 4 / 3)), ((4, 1.0), (4, 1.0)), ((1, 4.0), (1, 4.0)), ((3, 1.5), (2, 2.0)), ((2, 1.0), (1, 2.0)),
@@ -1028,7 +1053,7 @@ def fcase_requests(fc, obs):
     obs['expect'] = []
     for back, e_in, e_out in ((0, obs['x'], obs['fx']), (1, obs['y'], obs['by'])):
         for comp_in, comp_out in zip(np.atleast_2d(e_in), np.atleast_2d(e_out)):
-            lines.append('C04 filt %d %s %s %s %s' % (back, _glist(D.real), _glist(D.imag), _glist(comp_in.real), _glist(comp_in.imag)))
+            lines.append('C04 %s %d %s %s %s %s' % (fc.get('op', 'filt'), back, _glist(D.real), _glist(D.imag), _glist(comp_in.real), _glist(comp_in.imag)))
             obs['expect'].append((back, comp_out))
     return lines
 
@@ -1044,10 +1069,16 @@ def compare_fcase(ctx, fc, obs, answers):
     for resp, (back, real) in zip(answers[1:], obs['expect']):
         if not resp.startswith('ok'):
             raise MachineryError('C04 filt: driver answered %r for %r' % (resp, fc))
-        k = _kv(resp)
-        got = np.array([float(a) + 1j * float(b) for a, b in zip(parse_rat_list(k['re']), parse_rat_list(k['im']))])
+        op = fc.get('op', 'filt')
+        if op == 'filt':
+            k = _kv(resp)
+            got = np.array([float(a) + 1j * float(b) for a, b in zip(parse_rat_list(k['re']), parse_rat_list(k['im']))])
+        else:
+            # one formal phase sum per output pixel: terms c*exp(2 pi i t) written c:t
+            got = np.array([sum((float(parse_rat(c)) * np.exp(2j * np.pi * float(parse_rat(t))) for c, t in (term.split(':') for term in pix.split(',') if term)), 0j)
+                            for pix in resp.split('out=', 1)[1].split(';')])
         ctx.traces_validated += 1
-        ctx.count('pipeline-executed(filt):' + ('backward' if back else 'forward'))
+        ctx.count('pipeline-executed(%s):' % op + ('backward' if back else 'forward'))
         if got.shape != real.shape or not np.abs(got - real).max() <= 1e-12 * max(1.0, float(np.abs(real).max())):
             ctx.disagree('C04 executed pipeline', {'fcase': fc, 'direction': 'backward' if back else 'forward',
                                                    'impl': [str(c) for c in real], 'model': [str(c) for c in got]})
@@ -1055,17 +1086,18 @@ def compare_fcase(ctx, fc, obs, answers):
 
 def run_fcases(ctx):
     n = ctx.scale(240, 3000)
-    fcases = directed_fcases() + [gen_fcase(ctx.rng) for _ in range(n)]
+    npc = ctx.scale(60, 1000)
+    fcases = directed_fcases() + [gen_fcase(ctx.rng) for _ in range(n)] + directed_pcases() + [gen_pcase(ctx.rng) for _ in range(npc)]
     lines, kept = [], []
     for fc in fcases:
         obs = {}
         for key, what in oracle_fcase(fc, observe=obs):
             ctx.violation(key, what, {'fcase': fc})
         m = exact_regime({'kind': 'fresnel', 'dims': fc['dims'], 'delta': fc['delta'], 'lam': 1 / 16, 'z': 0.5, 'n': 1, 'q': fc['q'], 's': 1})['M']
-        ctx.count('small-filter M=%dx%d' % (m[0], m[1]))
+        ctx.count('small-filter M=%dx%d' % (m[0], m[1]) if fc.get('op', 'filt') == 'filt' else 'phase-sum filter: internal size %s' % ('odd on some axis' if (m[0] % 2 or m[1] % 2) else 'even'))
         ctx.count('small-filter padding:' + ('none' if m == fc['dims'] else ('one axis' if (m[0] == fc['dims'][0] or m[1] == fc['dims'][1]) else 'both axes')))
         ctx.count('small-filter:%s %s' % (fc['field'], fc['tfkind']))
-        ctx.case(None, nontrivial_key=('fcase', tuple(fc['dims']), _vkey(fc['q']), fc['field'], fc['tfkind']))
+        ctx.case(None, nontrivial_key=('fcase', fc.get('op', 'filt'), tuple(fc['dims']), _vkey(fc['q']), fc['field'], fc['tfkind']))
         if 'ff' not in obs:
             continue
         req = fcase_requests(fc, obs)
